@@ -376,6 +376,7 @@ type RollingFileLogger struct {
 	LoggerBase
 	logger    Logger
 	appenders []*AppenderRef
+	started   bool // true once the inner logger has been started
 
 	// File output configuration
 	FileDir  string `PluginAttribute:"fileDir,default=./logs"`
@@ -426,10 +427,18 @@ func initRollingFileLogger(
 		normalMaxLevel = WarnLevel
 	}
 
+	// Events reach the file appenders unformatted unless the logger itself
+	// has a layout, so the appenders need one of their own.
+	layout := f.Layout
+	if layout == nil {
+		layout = &TextLayout{BaseLayout: BaseLayout{FileLineLength: 48}}
+	}
+
 	// Create appenders for the normal log file
 	appenders := []*AppenderRef{
 		{
 			Appender: &RollingFileAppender{
+				Layout:   layout,
 				FileDir:  f.FileDir,
 				FileName: f.FileName,
 				Rotation: f.Rotation,
@@ -446,6 +455,7 @@ func initRollingFileLogger(
 	if f.Separate {
 		appenders = append(appenders, &AppenderRef{
 			Appender: &RollingFileAppender{
+				Layout:   layout,
 				FileDir:  f.FileDir,
 				FileName: f.FileName + ".wf",
 				Rotation: f.Rotation,
@@ -475,6 +485,12 @@ func initRollingFileLogger(
 			return err
 		}
 	}
+
+	// The inner logger owns the queue and the worker in async mode.
+	if err := f.logger.Start(); err != nil {
+		return err
+	}
+	f.started = true
 	return nil
 }
 
@@ -488,8 +504,12 @@ func (f *RollingFileLogger) Write(b []byte) {
 	f.logger.Write(b)
 }
 
-// Stop stops all appenders.
+// Stop flushes the inner logger and stops all appenders.
 func (f *RollingFileLogger) Stop() {
+	if f.started {
+		f.started = false
+		f.logger.Stop() // drains what is still queued before the files close
+	}
 	for _, a := range f.appenders {
 		a.Stop()
 	}
